@@ -36,6 +36,7 @@ func init() {
 			r.Floor("PN-reader", 9)
 			ruleDecoderBounds(c, r, "")
 			ruleReaderWindow(c, r, "")
+			ruleNilOnErr(c, r, "")
 			ruleXZReaderBounds(c, r)
 			t := getChunkTables(c, r, "")
 			ruleControlByte(c, r, t, "", true)
